@@ -27,7 +27,8 @@ TNext ==
      \/ Ev.ev = "req" /\ Ev.wr = 1 /\
           PWrite(Ev.side, Ev.class, Ev.n, Ev.st, Ev.data,
                  IF Ev.class = "manifest_put" THEN Ev.pn ELSE "",
-                 IF Ev.class = "manifest_put" THEN Ev.fb ELSE 0, Store(Ev))
+                 IF Ev.class = "manifest_put" THEN Ev.fb ELSE 0,
+                 IF Ev.class = "manifest_put" THEN Ev.istag ELSE 0, Store(Ev))
      \/ Ev.ev = "snap" /\ PSnap(Store(Ev))
      \/ Ev.ev = "result" /\ PResult(Ev.ok, Store(Ev))
      \/ Ev.ev = "final" /\ PFinal(Store(Ev))
